@@ -79,7 +79,7 @@ PROPS = {
                 mc=[dict(module="MC_Decode.tla", cfg="MC_Decode.cfg", cfg_q="MC_Decode_q.cfg", workers=14, timeout=3000)],
                 rule="all first words + multi-word prefixes x adversarial register files (0,1,2,3,FFFFFFFF,region edges +-4, odd values, 00FFFFFF, 01000000) x CCR 00/FF x 4 bus-controller settings x PC in every mapped region incl. its last 2/4/6 bytes and at unmapped addresses, in BOTH build profiles (release; release+overflow-checks+debug-assertions); the spec's outcome alphabet is {ok, err}: a recorded panic matches no action", assumptions=COMMON_ASSUME),
     "C19": dict(drivers=[dict(name="cost", args=["cost-table", "--out", "{out}", "--seed", "{seed}"])], mc=[dict(module="MC_Cost.tla", cfg="MC_Cost.cfg", workers=14)], exhaustive=True,
-                rule="exhaustive per-area setting space (8-/16-bit x 2-/3-state x 4 wait values x 8 DRAM selects; areas 3-5 with DRAM select 0/1 only) x 6 cycle kinds x counts 1-5 x both ends + interior of all 8 areas + on-chip RAM ends, the OTHER areas' bits filled all-0 / all-1 / two random ways; on-chip I/O register addresses excluded; each evaluation of the real calc_state / calc_state_with_addr is one event validated against H8Cost.CycleCost", assumptions=COMMON_ASSUME),
+                rule="exhaustive per-area setting space (8-/16-bit x 2-/3-state x 4 wait values x all 8 DRAM selects, DRAM space per the manual's DRAS table) x 6 cycle kinds x counts 1-5 x both ends + interior of all 8 areas + on-chip RAM ends, the OTHER areas' bits filled all-0 / all-1 / two random ways; on-chip I/O register addresses excluded; each evaluation of the real calc_state / calc_state_with_addr is one event validated against H8Cost.CycleCost", assumptions=COMMON_ASSUME),
     "C09": dict(drivers=[dict(name="scan", module="TraceBus.tla", args=["bus-scan", "--out", "{out}", "--seed", "{seed}"]),
                          dict(name="hist", module="TraceBus.tla", args=["bus-history", "--tier", "{tier}", "--out", "{out}", "--threads", "{threads}", "--seed", "{seed}"]),
                          step_cases("C09", name="wl")],
